@@ -172,13 +172,16 @@ def run_concrete(case) -> list[tuple[str, str]]:
                             ("rdflib", "bytesio-after-zeros"), ("rdflib", "bytesio-after-0a"),
                             ("rdflib", "bytesio"), ("rdflib", "raw"),
                             ("generic", "preamble14"), ("generic", "preamble15"),
-                            ("generic", "tinybuf"), ("generic", "raw1"), ("generic", "raw2")):
+                            ("generic", "tinybuf"), ("generic", "raw1"), ("generic", "raw2"),
+                            ("generic", "seekraw"), ("rdflib", "seekraw")):
             if source == "raw1" and len(data) > 100_000:
                 continue  # (one byte at a time through megabytes adds nothing but time)
             src = {"bytesio": lambda: io.BytesIO(data),
                    "raw": lambda: faultio.ScheduleRaw(data),
                    "buffered": lambda: io.BufferedReader(faultio.ScheduleRaw(data, default=5)),
                    "raw1": lambda: faultio.ScheduleRaw(data, default=1),
+                   # a seekable raw source (io.FileIO / open(..., buffering=0))
+                   "seekraw": lambda: faultio.ScheduleRaw(data, seekable=True),
                    "raw2": lambda: faultio.ScheduleRaw(data, (2,)),
                    "bytesio-after-zeros": lambda: positioned(b"\x00\x00\x00\x00\x07"),
                    "bytesio-after-0a": lambda: positioned(b"\x0a\x03\x0a\x01\x00"),
